@@ -369,10 +369,10 @@ fn c06_one(col: &mut Collector, cx: &Ctx, e: &Entry, doc: &PDoc, m: &PMessage, v
         }
         // pilota's bytes read by the independent decoder; the expectation is the value pilota
         // holds (field read-out), so a wrong decode is not reported twice
-        match pb::decode(doc, m, &en.bytes) {
+        match pb::decode_strict(doc, m, &en.bytes) {
             Err(x) => {
                 outcomes.push("wire-invalid");
-                pending.push((format!("C06|{}|encoded-wire-invalid|{:?}", e.cfg, x), case(json!({"out": hex(&en.bytes)})), format!("the reference decoder rejects pilota's encoding of {}: {:?}", got.show(), x)));
+                pending.push((format!("C06|{}|encoded-wire-invalid|{}", e.cfg, format!("{:?}", x).split('(').next().unwrap_or("")), case(json!({"out": hex(&en.bytes)})), format!("the reference decoder rejects pilota's encoding of {}: {:?}", got.show(), x)));
             }
             Ok(back) => {
                 let back = pb::norm(doc, m, &back);
